@@ -32,7 +32,9 @@ class ResRef:
             if self.kind == "preemptive" and len(users) >= self.cap and h[3]:
                 wk = max(key(u) for u in users)
                 if wk > key(h):
-                    for v in [u for u in users if key(u) == wk]:
+                    # rank order is (priority, request time, preempting-first, arrival): among equal keys the latest arrival is worst
+                    last = max(u[4] for u in users if key(u) == wk)
+                    for v in [u for u in users if key(u) == wk and u[4] == last]:
                         u2 = tuple(u for u in users if u != v)
                         work.append((u2 + (h,), queue[1:], grants + ((h[0], now),), pre + ((v[0], h[0], now),)))
                     branched = True
